@@ -307,6 +307,31 @@ func shadowableNames(name string, async bool) *spec.Spec {
 	return b.s
 }
 
+// dotImported: the declaration file imports the providers' package with a
+// dot, so provider expressions, Value expressions, the requested type and a
+// function literal's parameter types are written without a qualifier.
+func dotImported(name string, async bool) *spec.Spec {
+	b := newBuilder(name)
+	infra := b.ext("infra", "infra", "")
+	cfg := b.ptr(b.strct("Settings", infra))
+	db := b.ptr(b.strct("Database", infra))
+	lim := b.nint("Limit", infra)
+	app := b.ptr(b.strct("App", ""))
+	p1 := b.fn("NewSettings", infra, nil, []int{cfg}, false, false)
+	p2 := b.fn("NewDatabase", infra, []int{cfg, lim}, []int{db}, async, true)
+	pv := &spec.Prov{ID: len(b.s.Provs), Kind: spec.PValue, ValExpr: "infra.Limit(42)", ValH: 42, Results: []int{lim}}
+	b.s.Provs = append(b.s.Provs, pv)
+	p4 := b.fn("NewApp", "", []int{db}, []int{app}, async, false)
+	b.s.Sets = []*spec.SetDef{{Name: "InfraSet", Items: []spec.Item{{Prov: p1}, {Prov: p2}, {Prov: pv.ID}}}}
+	b.s.Injectors = append(b.s.Injectors,
+		&spec.Injector{Name: "InitializeSettings", Ret: cfg, Items: []spec.Item{{Prov: -1, Set: "InfraSet"}}},
+		&spec.Injector{Name: "InitializeApp", Ret: app, Items: []spec.Item{{Prov: -1, Set: "InfraSet"}, {Prov: p4}}},
+		&spec.Injector{Name: "InitializeDatabase", Ret: db, Items: []spec.Item{{Prov: p2}, {Prov: pv.ID}}})
+	b.s.DotImport = infra
+	b.s.Features = append(b.s.Features, "dot-imported-provider-package")
+	return b.s
+}
+
 // injectorNameForms: declarations whose injector name cannot become a
 // package-level function: used twice in one file (0) or in two files of one
 // package (4), equal to a function the user wrote (1), a keyword (2), not an
@@ -391,6 +416,7 @@ func corpusSpecs(prop string) []*spec.Spec {
 		}
 		fs = append(fs, setReferenceForms("ks"+prop[1:]+"p", 0, true), setReferenceForms("ks"+prop[1:]+"x", 1, true))
 		fs = append(fs, shadowableNames("kv"+prop[1:]+"s", false), shadowableNames("kv"+prop[1:]+"a", true))
+		fs = append(fs, dotImported("kd"+prop[1:]+"s", false), dotImported("kd"+prop[1:]+"a", true))
 		if prop == "C04" {
 			for k := 0; k < 6; k++ {
 				fs = append(fs, injectorNameForms(fmt.Sprintf("kn04i%d", k), k))
@@ -406,6 +432,7 @@ func corpusSpecs(prop string) []*spec.Spec {
 		var fs []*spec.Spec
 		if prop == "C02" || prop == "C01" || prop == "C10" {
 			fs = append(fs, shadowableNames("kv"+prop[1:]+"s", false), shadowableNames("kv"+prop[1:]+"a", true))
+			fs = append(fs, dotImported("kd"+prop[1:]+"s", false), dotImported("kd"+prop[1:]+"a", true))
 			fs = append(fs, setReferenceForms("ks"+prop[1:]+"p", 0, false), setReferenceForms("ks"+prop[1:]+"q", 0, true))
 		}
 		if prop == "C10" || prop == "C11" {
